@@ -90,6 +90,27 @@ def real_monitor_labels(s, shape, prs, which, pre_heads):
                 bad.append('C08 foreign ref %s deleted' % r)
             elif heads[r] != sha:
                 bad.append('C08 foreign ref %s updated' % r)
+    if 'C06' in which and prs:
+        p = prs[0]
+        ts = GF.targets(shape, p.dst)
+        asked = [sha for (sha, key) in s.host.asked if key == GF.BUILD_KEY]
+        moved = [t for t in ts if t in heads and heads[t] != pre_heads.get(t)]
+        queued = [r for r in heads if r.startswith('q/w/%d/' % p.id) and heads[r] != pre_heads.get(r)]
+        if (moved or queued) and len(asked) >= len(ts):
+            gate = asked[-len(ts):]
+            for k, t in enumerate(ts):
+                what = 'the source tip' if k == 0 else 'an integration tip'
+                green = s.build_status(gate[k], GF.BUILD_KEY) == 'SUCCESSFUL'
+                if t in moved and not green:
+                    bad.append('C06 merged although the build of %s was not SUCCESSFUL' % what)
+                if t in moved and k >= 1 and t in pre_heads and not w.is_ancestor(pre_heads[t], gate[k]):
+                    bad.append('C06 the integration commit that was built does not contain its '
+                               'destination (stale build)')
+                if queued and not green:
+                    bad.append('C06 queued although the build of %s is not SUCCESSFUL' % what)
+        elif moved and not queued and len(asked) < len(ts) and any(
+                j['event'].startswith('eval_pr') for j in s.all_jobs[-1:]):
+            bad.append('C06 destination moved without reading the build statuses')
     if 'C02' in which:
         for p in prs:
             ts = [t for t in GF.targets(shape, p.dst) if t in heads]
@@ -279,6 +300,126 @@ def scen_same_as_parent(prefix, event, parent_event):
     return scen
 
 
+def _robot_texts(rec):
+    return [e[2] for e in rec['effects'] if e[0] == 'comment' and 'InitMessage' not in e[2]
+            and 'init.md' not in e[2]]
+
+
+def scen_hold(prefix, hold, lift, event, held_outs):
+    """C12: a hold (wait / unmerged dependency) keeps the pull request from getting
+    integration branches, queue entries or merges whatever its approvals and
+    builds; once it is lifted the evaluation proceeds as if it had never been
+    there (compared with the run without the hold from the same state)."""
+    def scen(s, choose):
+        bad = []
+        s.play(prefix)
+        snap = s.snapshot()
+        a = s.play(lift + [event])
+        a = a[-1] if a else None
+        s.restore(snap, new_server=True)
+        s.play(hold)
+        for k in range(2):
+            h = s.play([event])
+            if not h:
+                return bad
+            if h[0]['ops']:
+                bad.append('C12 a held pull request got branches / queue entries / merges')
+            if h[0]['out'] not in held_outs:
+                bad.append('C12 a held pull request was evaluated (%s)' % h[0]['out'])
+            if any(e[0] != 'comment' for e in h[0]['effects']):
+                bad.append('C12 a held pull request got integration pull requests / was declined')
+        b = s.play(lift + [event])
+        b = b[-1] if b else None
+        if a and b and (a['out'] != b['out'] or a['ops'] != b['ops'] or _robot_texts(a) != _robot_texts(b)):
+            bad.append('C12 after the hold is lifted the evaluation differs from the one without the hold')
+        return bad
+    return scen
+
+
+def scen_admin(prefix, event, verdict):
+    """C20: an admin job run in a state reached by real jobs; verdict(s, rec, before) -> labels."""
+    def scen(s, choose):
+        s.play(prefix)
+        before = dict(refs=s.ref_names(), tags=s.tag_names())
+        rec = s.play([event])[0]
+        return verdict(s, rec, before)
+    return scen
+
+
+def _refuses_untouched(what):
+    def verdict(s, rec, before):
+        bad = []
+        if rec['out'] not in ('JobFailure', 'NothingToDo'):
+            bad.append('C20 %s was not refused (%s)' % (what, rec['out']))
+        if rec['ops']:
+            bad.append('C20 a refusing job touched the remote')
+        return bad
+    return verdict
+
+
+def _deletes_with_tag(branch):
+    def verdict(s, rec, before):
+        bad = []
+        ver = branch.split('/', 1)[1]
+        if rec['out'] != 'JobSuccess':
+            bad.append('C20 delete-branch refused although nothing is queued on the branch (%s)' % rec['out'])
+            if rec['ops']:
+                bad.append('C20 a refusing job touched the remote')
+            return bad
+        if branch in s.ref_names():
+            bad.append('C20 delete-branch succeeded but the branch is still there')
+        if ver not in s.tag_names():
+            bad.append('C20 branch deleted without an archive tag')
+        other = [o for o in rec['ops'] if o[1] not in (branch, ver, 'q/' + ver)]
+        if other:
+            bad.append('C20 delete-branch changed other refs')
+        return bad
+    return verdict
+
+
+def _creates(branch, allowed):
+    def verdict(s, rec, before):
+        bad = []
+        created = branch in s.ref_names() and branch not in before['refs']
+        if allowed and not created:
+            bad.append('C20 create-branch refused a branch that keeps the repository well-formed (%s)' % rec['out'])
+        if not allowed and created:
+            bad.append('C20 create-branch published a branch while queued pull requests need new '
+                       'intermediate integration branches')
+        if not created and rec['ops']:
+            bad.append('C20 a refusing job touched the remote')
+        if created and [o for o in rec['ops'] if o[1] != branch and not o[1].startswith('q/')]:
+            bad.append('C20 create-branch changed other refs')
+        return bad
+    return verdict
+
+
+def _rebuild(expected_ids):
+    def verdict(s, rec, before):
+        bad = []
+        if [o for o in rec['ops'] if not o[1].startswith('q/')]:
+            bad.append('C20 rebuild-queues touched a branch outside q/')
+        if [r for r in s.ref_names() if r.startswith('q/')]:
+            bad.append('C20 rebuild-queues left queue branches behind')
+        want = expected_ids(s, before)
+        if rec.get('put') != want:
+            bad.append('C20 rebuild-queues re-submitted %s instead of %s' % (rec.get('put'), want))
+        return bad
+    return verdict
+
+
+def _queued_ids(s, before):
+    """Pull requests that had a q/w/<id>/ branch, in queue order (entry order = id order here:
+    the scripts queue them in increasing id)."""
+    ids = []
+    for r in before['refs']:
+        if r.startswith('q/w/'):
+            i = int(r.split('/')[2])
+            if i not in ids:
+                ids.append(i)
+    return sorted(ids)
+
+
 # -- running -----------------------------------------------------------------------------------
 class SymChooser:
     def __init__(self, ctx):
@@ -315,6 +456,8 @@ H.SymSession.differs = sym_differs
 H.RealSession.differs = real_differs
 H.SymSession.ref_names = lambda self: sorted(self.repo.remote)
 H.RealSession.ref_names = lambda self: sorted(self.world.heads())
+H.SymSession.tag_names = lambda self: sorted(self.repo.remote_tags)
+H.RealSession.tag_names = lambda self: sorted(self.world.tag_refs())
 
 
 def make_harness(cfg):
@@ -326,6 +469,8 @@ def make_harness(cfg):
                          settings=cfg.get('settings'), monitors=mons, with_w=cfg.get('with_w', False),
                          extra_refs=cfg.get('extra_refs', ()), nfresh=cfg.get('nfresh', 24),
                          green=cfg.get('green', False), no_conflicts=cfg.get('no_conflicts', False))
+        if 'C06' in cfg.get('which', ()):
+            s.repo.monitors.append(GF.mon_handler_builds(cfg['shape'], prs[0], z3.BoolVal(False), s.host))
         choose = SymChooser(ctx)
         labels = cfg['scen'](s, choose)
         labels = list(dict.fromkeys(labels))
@@ -584,6 +729,45 @@ def family(prop, tier):
                         settings=ipr))
         out.append(_cfg('par:noqueue:F:child', 'event on the integration pull request = parent (no queue)',
                         F, [P1], 'noqueue', scen_same_as_parent([EV1], _child_event, EV1), settings=ipr))
+    elif prop == 'C12':
+        WAIT = ('comment', 1, 'contributor', '@robot wait')
+        for mode in ('noqueue', 'queue'):
+            out.append(_cfg('hold:%s:F:wait' % mode, 'hold %s: wait comment, evaluated twice, lifted' % mode, F, [P1], mode,
+                            scen_hold([], [WAIT], [('uncomment', 1, '@robot wait')], EV1, ('NothingToDo',)),
+                            expect_outcomes=['NothingToDo']))
+        out.append(_cfg('hold:queue:F:wait-late', 'hold queue: wait added after a first evaluation', F, [P1], 'queue',
+                        scen_hold([EV1], [WAIT], [('uncomment', 1, '@robot wait')], EV1, ('NothingToDo',))))
+        DEP = ('comment', 1, 'contributor', '/after_pull_request=2')
+        out.append(_cfg('hold:noqueue:F:dep', 'hold noqueue: dependency on an open pull request, lifted by merging it',
+                        F, [P1, P2], 'noqueue',
+                        scen_hold([], [DEP], [('eval_pr', 2)], EV1, ('AfterPullRequest',)),
+                        green=True, no_conflicts=True, expect_outcomes=['AfterPullRequest', 'SuccessMessage']))
+    elif prop == 'C06':
+        for mode in ('noqueue', 'queue'):
+            out.append(_cfg('gate:%s:F' % mode, 'build gate along a history (%s): evaluate, source pushed, evaluate twice' % mode,
+                            F, [P1], mode, scen_play([EV1, ('src_push', 1), EV1, EV1]), which=('C06',),
+                            signame='build gate history %s' % mode))
+    elif prop == 'C20':
+        Q1 = [EV1]
+        out.append(_cfg('adm:queue:F:del-queued', 'delete a branch targeted by a queued pull request', F, [P1], 'queue',
+                        scen_admin(Q1, ('delete_branch', 'development/5.1'), _refuses_untouched('deleting a branch with queued pull requests')),
+                        green=True, no_conflicts=True, expect_outcomes=['Queued', 'JobFailure']))
+        out.append(_cfg('adm:queue:A:del-free', 'delete the oldest branch while a pull request is queued on the newer ones',
+                        A, [(1, 'feature/a', 'development/5.1')], 'queue',
+                        scen_admin(Q1, ('delete_branch', 'development/4.3'), _deletes_with_tag('development/4.3')),
+                        green=True, no_conflicts=True, which=('C01',), expect_outcomes=['Queued', 'JobSuccess']))
+        out.append(_cfg('adm:queue:F:create-mid', 'create an intermediate branch while a pull request is queued', F, [P1],
+                        'queue', scen_admin(Q1, ('create_branch', 'development/5.0'), _creates('development/5.0', False)),
+                        green=True, no_conflicts=True, expect_outcomes=['Queued']))
+        out.append(_cfg('adm:queue:F:create-new', 'create the newest branch while a pull request is queued', F, [P1],
+                        'queue', scen_admin(Q1, ('create_branch', 'development/10.0'), _creates('development/10.0', True)),
+                        green=True, no_conflicts=True, which=('C01',), expect_outcomes=['Queued', 'JobSuccess']))
+        out.append(_cfg('adm:queue:F:rebuild', 'rebuild the queues with two pull requests queued', F, [P1, P2b], 'queue',
+                        scen_admin([EV1, ('eval_pr', 2)], ('rebuild_queues',), _rebuild(_queued_ids)),
+                        green=True, no_conflicts=True, expect_outcomes=['Queued', 'JobSuccess']))
+        out.append(_cfg('adm:noqueue:F:create-mid', 'create an intermediate branch, queues disabled', F, [P1], 'noqueue',
+                        scen_admin([], ('create_branch', 'development/5.0'), _creates('development/5.0', True)),
+                        which=('C01',)))
     elif prop in ('C01', 'C03', 'C08'):
         which = (prop,)
         modes = ('queue', 'skip') if prop == 'C03' else ('queue', 'noqueue', 'skip')
